@@ -23,7 +23,7 @@ def oblige(self, name, formula, kind="post", detail="", assume_after=True):
         s = self.solver
         s.push(); s.add(z3.Not(z3.simplify(formula) if not isinstance(formula, bool) else z3.BoolVal(formula)))
         open(fn, "w").write(s.to_smt2()); s.pop()
-        print(f"  !! {ob.status} {name} path={ob.path_id} -> {fn} reason={getattr(ob,'reason',None)}")
+        print(f"  !! {ob.status} {name} path={ob.path_id} -> {fn} reason={getattr(ob,'reason',None)} goal={str(z3.simplify(formula))[:160] if not isinstance(formula,bool) else formula}".replace("\n"," "))
     if assume_after and not isinstance(formula, bool):
         self.assume(z3.simplify(formula))
     return ob
